@@ -33,6 +33,8 @@ HdrB == <<H("X-Hdr", <<"h1", "h2">>), H("X-Both", <<"hb">>)>>
 TrlB == <<H("X-Trl", <<"t1">>), H("X-Both", <<"tb">>)>>
 MetaE == <<H("X-Err", <<"e1", "e2">>), H("X-Both", <<"eb">>)>>
 MetaR == <<H("Grpc-Status", <<"14">>), H("Grpc-Message", <<"stale">>), H("X-Err", <<"e1">>)>>
+\* what the metadata of an error received from another (HTTP/1.1, compressing) server holds besides the application's keys
+MetaP == <<H("Content-Length", <<"5">>), H("Content-Encoding", <<"gzip">>), H("Content-Type", <<"application/grpc">>), H("X-Err", <<"e1">>)>>
 
 (* design check: every stage x every protocol x kind, small programs *)
 MCInit ==
@@ -90,7 +92,7 @@ GenC01Spec == (GenC01Init \/ GenC01BigInit \/ GenC01EdgeInit) /\ [][FALSE]_vars
 MsgClasses == {"empty", "ascii", "nonascii", "ctl", "pct", "crlf", "blanks", "long"}
 GenC02Init ==
   \E p \in Protos, k \in Kinds, codec \in {"proto", "json"}, c \in 1..16, m \in MsgClasses, n \in {0, 1, 2},
-     me \in {<<>>, MetaE, <<H("X-Multi", <<"a", "b", "c">>)>>, MetaR}, a \in {0, 1, 2}, ek \in {"err", "wrapped", "ctxwrap"} :
+     me \in {<<>>, MetaE, <<H("X-Multi", <<"a", "b", "c">>)>>, MetaR, MetaP}, a \in {0, 1, 2}, ek \in {"err", "wrapped", "ctxwrap"} :
     \E http \in HTTPs(k) :
       \* (unary: nothing can follow the response; client streaming: an interceptor's error can -- a = 1)
       /\ (k = "unary" => a = 0) /\ (k = "client" => a \in {0, 1} /\ (a = 1 => ek = "err"))
